@@ -3,7 +3,7 @@ from . import shared as S
 from . import roundtrip as R
 
 META = {
-    'claim_added': 'Also decided: extras are stripped (whole recursion) before construction; enum members by name, string-likes and Paths from the node text; requiredness arithmetic of class_subobjects and its agreement with defaulted_attributes. Round 3: the composed tree reaches recognition unmodified (R02.12); the dict built by construct_mapping is not written before __init__ receives it (R02.13); implicit raisers and user-code call sites of the load path are discharged as in C08 (R02.14/15). Round 6: the savorize step of the pipeline (R02.20-22 and R10.2/R10.4 run here too: bases first, every class that defines the hook, nothing returns before the bases had their turn); name lists handed to the checking methods are the signature\'s parameters (argument provenance from the call sites). Round 6 (E14): caches on the code this property is about are invisible - no value that lives in a memo cell (dict / lazily filled attribute / lru_cache) is modified by the code it is handed to, the key of a cell contains every input its value depends on, no mutable parameter default is modified or handed out; given that, the program is analysed as if every lookup missed.',
+    'claim_added': 'Also decided: extras are stripped (whole recursion) before construction; enum members by name, string-likes and Paths from the node text; requiredness arithmetic of class_subobjects and its agreement with defaulted_attributes. Round 3: the composed tree reaches recognition unmodified (R02.12); the dict built by construct_mapping is not written before __init__ receives it (R02.13); implicit raisers and user-code call sites of the load path are discharged as in C08 (R02.14/15). Round 6: the savorize step of the pipeline (R02.20-22 and R10.2/R10.4 run here too: bases first, every class that defines the hook, nothing returns before the bases had their turn); name lists handed to the checking methods are the signature\'s parameters (argument provenance from the call sites). Round 6 (E14): caches on the code this property is about are invisible - no value that lives in a memo cell (dict / lazily filled attribute / lru_cache) is modified by the code it is handed to, the key of a cell contains every input its value depends on, no mutable parameter default is modified or handed out; given that, the program is analysed as if every lookup missed. Round 12: R02.23 (= R01.16) - the constructors write no node of the processed tree.',
     'level': 'other',
     'technique': 'static: guard/dominance analysis of the admission rules (construct_mapping deep flag, attribute-set '
                  'agreement between introspection and constructor, per-kind accept guards via must-pass-through, key-kind and '
@@ -48,5 +48,7 @@ def run(ctx):
     S.r01_3_recursion(ctx)
     # the savorize step of the pipeline: base classes first, each class that defines the hook, before the attributes are judged
     S.r10_hooks(ctx, ids=('R02.20', 'R02.21', 'R02.22'), only_hooks={'_yatiml_savorize'})
+    from . import round3 as R3w
+    R3w.r01_16_constructors_write_no_node(ctx, 'R02.23')
     from . import memo_rules as M
     M.memo_sound(ctx, 'R02.M')
